@@ -34,7 +34,15 @@ pub struct Trace {
     /// size is not known in advance and which delivers short reads)
     #[serde(default)]
     pub via_fifo: bool,
+    /// bytes put in front of / behind the file content (text-file habits: line endings, byte order marks,
+    /// the tool's own textual output, other formats' magic numbers); the tool must hand exactly the file's
+    /// bytes to the library
+    #[serde(default)]
+    pub affix: Option<(Vec<u8>, Vec<u8>)>,
 }
+
+const PREFIXES: &[&[u8]] = &[b"", b"", b"", b"; SPIR-V\n", b"; SPIR-V", b"; SPIR-V\n; Version: 1.0\n; Generator: rspirv\n; Bound: 1\n", b"\xEF\xBB\xBF", b"#!/bin/sh\n", b"\x1f\x8b\x08", b"SPIR", b"\n", b"\x03\x02\x23\x07", b"\x07\x23\x02\x03", b"OpCapability Shader\n"];
+const SUFFIXES: &[&[u8]] = &[b"\n", b"\r\n", b"\n\n", b"\n\n\n\n\n", b"\r\n\r\n\r", b"\n\n\n\n\n\n\n\n", b"\0", b"\0\0\0\0\0", b" ", b"\x1a", b"", b"\n\r\n\r\n\r\n"];
 
 pub struct C20;
 
@@ -207,7 +215,8 @@ impl Property for C20 {
             None
         };
         let via_fifo = big.is_none() && eintr_at.is_none() && rng.chance(1, 12);
-        Trace { source, faults, eintr_at: if big.is_some() { None } else { eintr_at }, big, via_fifo }
+        let affix = if big.is_none() && rng.chance(1, 7) { Some((rng.pick(PREFIXES).to_vec(), rng.pick(SUFFIXES).to_vec())) } else { None };
+        Trace { source, faults, eintr_at: if big.is_some() { None } else { eintr_at }, big, via_fifo, affix }
     }
 
     fn execute(t: &Trace, cov: &mut Cov) -> RunOut {
@@ -226,6 +235,16 @@ impl Property for C20 {
             }
             (None, Source::Raw(b)) => (b.clone(), vec![]),
             (None, Source::Stream(st)) => faults::apply(st, &t.faults),
+        };
+        let bytes = match &t.affix {
+            Some((pre, suf)) => {
+                cov.hit("fault.foreign_bytes_around_the_content");
+                let mut b = pre.clone();
+                b.extend_from_slice(&bytes);
+                b.extend_from_slice(suf);
+                b
+            }
+            None => bytes,
         };
         for f in &fired {
             cov.hit(f);
@@ -361,6 +380,21 @@ impl Property for C20 {
             let mut c = t.clone();
             c.via_fifo = false;
             out.push(c);
+        }
+        if let Some((pre, suf)) = &t.affix {
+            let mut c = t.clone();
+            c.affix = None;
+            out.push(c);
+            if !pre.is_empty() {
+                let mut c = t.clone();
+                c.affix = Some((vec![], suf.clone()));
+                out.push(c);
+            }
+            if !suf.is_empty() {
+                let mut c = t.clone();
+                c.affix = Some((pre.clone(), suf[..suf.len() - 1].to_vec()));
+                out.push(c);
+            }
         }
         if let Some((count, tail)) = t.big {
             for c2 in [count / 2, count - 1] {
